@@ -14,6 +14,7 @@ package main
 import (
 	"fmt"
 
+	"github.com/hedzr/is"
 	"github.com/hedzr/logg/slog"
 	errorsv3 "gopkg.in/hedzr/errors.v3"
 )
@@ -65,6 +66,17 @@ func historyPrelude(h int) {
 			_ = slog.Level(unregLevel).ShortTag(w)
 			_ = slog.Level(4).ShortTag(w)
 		}
+	}
+	if h&128 != 0 {
+		// another logger is switched to Debug and to Trace (which turns the process-wide debug / trace
+		// mode on: put back afterwards - the case under test sets the mode it runs under itself)
+		dbg, trc := is.DebugMode(), is.TraceMode()
+		d := side("logfmt")
+		d.SetLevel(slog.DebugLevel)
+		d.Debug("prelude at debug level", "k", 1)
+		d.SetLevel(slog.TraceLevel)
+		is.SetDebugMode(dbg)
+		is.SetTraceMode(trc)
 	}
 	if h&64 != 0 {
 		tw, mw := slog.VerifWidths()
